@@ -260,7 +260,8 @@ def r3(R, m):
         R.check(any(nonempty(t, pol) for t, pol in gs), "C03.R3", REL, sub.lineno, "unitcell.makerings", "%s is read only when the list is not empty" % src(sub),
                 "for a d-star limit below the first reflection gethkls returns an empty list and %s raises IndexError (after ringds / ringhkls were "
                 "already reset): a legitimate limit ends in an exception instead of 'no rings'" % src(sub))
-    R.check(len(first) == 1 and src(first[0].value).replace(" ", "") == "self.gethkls(limit+tol)", "C03.R3", REL, fn.lineno, "unitcell.makerings",
+    R.check(len(first) == 1 and pyfacts.resolved_src(fn, first[0].value, 2, keep=("self", "limit", "tol")).replace(" ", "").replace("((", "(").replace("))", ")") == "self.gethkls(limit+tol)",
+            "C03.R3", REL, fn.lineno, "unitcell.makerings",
             "rings built from gethkls(limit + tol)", "rings are not built from the reflection list up to limit + tol")
 
 
@@ -523,6 +524,13 @@ def r5(R, m):
                 else:
                     ok = bool(extra) and all(given[a] for a in extra) and not any(cfg.dominates(cfg.node_of(s), rn) for s in st + lm)
                     why = "returns a list that was not stored as self.peaks with self.limit = dsmax"
+                    if not ok and extra and st and lm:
+                        # one return after a conditional store: 'if spg is None: self.peaks = peaks; self.limit = dsmax' and then
+                        # 'return peaks' - cached exactly where every extra argument has its neutral value
+                        def under_neutral(stmt_):
+                            g_ = cfg.guards(cfg.node_of(stmt_))
+                            return all(any(_is_none_test(t_, p_, a) for t_, p_ in g_) for a in extra)
+                        ok = all(under_neutral(s_) for s_ in st[:1] + lm[:1]) and all(s_.lineno < r.lineno for s_ in st[:1] + lm[:1])
             else:
                 why = "returns %s, which is neither the cached list nor a freshly cached one" % v
             R.check(ok, "C03.R5", REL, r.lineno, qual, "return %s" % v[:60],
